@@ -2,242 +2,448 @@
 
 from __future__ import annotations
 
-import ast
+import itertools
+from fractions import Fraction as F
 
-from sa.cfg import CFG, EXIT
+from sa import term as T
 from sa.effects import Effects
+from sa.interp import EnumMember, Opaque, RaiseSignal, SObj, SVar
 from sa.load import AnalysisError, Repo, loc
 from sa.report import Run
+from sa.term import Rat
+from sa.units import NO_UNIT, Unit
+from sa.witness import WitnessInterp, WitnessModel, items_of, rows_of, sym_scalar
 
-CONSUMERS = ('_guess_background', '_guess_peak', '_fit_background', '_perform_fit')
-REQUIREMENTS = {
-    'background_is_better': 'aic',
-    'p_too_small': 'p_value',
-    'peak_near_edge': '_peak_is_near_edge',
-    'peak_points_down': '_curve_points_down',
-    'peak_too_wide': '_peak_is_too_wide',
-    'peak_too_narrow': '_peak_is_too_narrow',
-}
+MOD = 'peaks._fit_peaks'
+ANG = Unit.named('angstrom')
+CNT = Unit.named('counts')
+REQUIREMENTS = ('background_is_better', 'p_too_small', 'peak_near_edge', 'peak_points_down', 'peak_too_wide', 'peak_too_narrow')
 
 
-def returns_call_of(st, name: str) -> bool:
-    return isinstance(st, ast.Return) and st.value is not None and name in ast.unparse(st.value)
+class FitModel(WitnessModel):
+    """WitnessModel plus the two third-party calls of the fitting code, as recording stubs."""
+
+    def __init__(self):
+        super().__init__()
+        self.fits: list = []
+        self.fit_raises = False
+        self.popt_factory = None
+
+    def call_ext(self, interp, path, args, kwargs, node):
+        if path.endswith('curve_fit'):
+            self.fits.append({'f': args[0] if args else kwargs.get('f'), 'data': args[1] if len(args) > 1 else kwargs.get('da'),
+                              'p0': kwargs.get('p0'), 'bounds': kwargs.get('bounds')})
+            if self.fit_raises:
+                raise RaiseSignal('RuntimeError', node, interp.where(node), ('optimiser did not converge',))
+            return (self.popt_factory(interp, self, kwargs.get('p0')), Opaque('covariance'))
+        if path.endswith('chi2') and len(args) == 1:
+            return _Chi2(self, interp, args[0])
+        return super().call_ext(interp, path, args, kwargs, node)
 
 
-def norm(node) -> str:
-    return ast.unparse(node).replace(' ', '')
+class _Chi2:
+    def __init__(self, model, interp, dof):
+        self.model, self.interp, self.dof = model, interp, dof
+
+    def cdf(self, x):
+        t = Rat.fn('chi2cdf', Rat.const(self.dof), x.term) if isinstance(x, SVar) and isinstance(x.term, Rat) and isinstance(self.dof, int) else None
+        r = self.model.new(self.interp, t, Unit(), 'float64', why='chi2 cdf of unknown arguments')
+        r.kind = 'pyfloat'
+        r.members['dims'] = []
+        return r
 
 
-def stmt_texts(fn) -> list[str]:
-    return [norm(s) for s in ast.walk(fn) if isinstance(s, ast.stmt) and not isinstance(s, ast.FunctionDef | ast.If | ast.For | ast.Try | ast.With)]
+class ModelStub:
+    """A fit model: named parameters, bounds, guesses, symbolic evaluation."""
+
+    def __init__(self, world, name, params, is_sum=False):
+        self.world, self.name = world, name
+        self.param_names = set(params)
+        self.prefix = name + '_'
+        self.calls = []
+        self.guesses = []
+        self.parts = ()
+        self.fwhm_value = None
+
+    @property
+    def param_bounds(self):
+        return {p: (-float('inf'), float('inf')) for p in sorted(self.param_names)}
+
+    def __add__(self, other):
+        m = ModelStub(self.world, f'{self.name}+{other.name}', self.param_names | other.param_names)
+        m.parts = (self, other)
+        return m
+
+    def guess(self, data, **kw):
+        self.guesses.append(data)
+        if self.world.guess_needs is not None and len(items_of(data) or []) < self.world.guess_needs:
+            raise RaiseSignal('ValueError', None, f'{self.name}.guess', ('not enough points to guess from',))
+        w = self.world
+        return {p: sym_scalar(w.it, w.model, f'g_{p}', CNT, 1) for p in sorted(self.param_names)}
+
+    def __call__(self, x, **params):
+        self.calls.append((x, params))
+        w = self.world
+        its = items_of(x)
+        if its is None:
+            raise AnalysisError(f'model {self.name} evaluated on {x!r}')
+        k = len(self.calls)
+        out = [sym_scalar(w.it, w.model, f'f_{self.name}_{k}_{T.show(c.term)}', CNT, 1 + i) for i, c in enumerate(its)]
+        return w.model.array(w.it, out, x.members['dims'][0])
+
+    def fwhm(self, popt):
+        return self.fwhm_value
+
+
+class World:
+    def __init__(self, repo):
+        T.reset()
+        self.repo = repo
+        self.model = FitModel()
+        self.it = WitnessInterp(repo, self.model)
+        self.it.concrete_enums = True
+        self.it.events, self.it.conditions = [], []
+        self.guess_needs = None
+        self.assess = self.it.enum_members(repo.cls(MOD, 'FitAssessment'))
+
+    def scalar(self, name, unit, value, positive=False):
+        return sym_scalar(self.it, self.model, name, unit, value, positive=positive)
+
+    def data(self, n, name='y', x0=0, step=1, variances=True, grid=None):
+        xs = [self.scalar(f'x{i}', ANG, F(grid[i]) if grid is not None else F(x0) + F(step) * i) for i in range(n)]
+        ys = []
+        for i in range(n):
+            y = self.scalar(f'{name}{i}', CNT, 10 + i)
+            if variances:
+                y.members['var'] = self.scalar(f'v{i}', Unit({'counts': 2}), 2 + i, positive=True)
+            ys.append(y)
+        da = self.model.array(self.it, ys, 'x')
+        da.kind = 'dataarray'
+        da.origin = 'data'
+        da.members['coords'] = {'x': self.model.array(self.it, xs, 'x')}
+        return da
+
+    def call(self, fi, args, kwargs=None, bound=None):
+        try:
+            return 'return', self.it.call_function(fi, list(args), dict(kwargs or {}), bound=bound)
+        except RaiseSignal as r:
+            return 'raise', r.exc_type
+
+
+def assessment_name(v):
+    return v.name if isinstance(v, EnumMember) else repr(v)
 
 
 def run(tier: str) -> Run:
     run = Run('C17', tier, 'other',
-              'Control-flow and table rules over peaks/_fit_peaks.py and _remove_peaks.py (statement CFG '
-              'with dominators): the point-count guard returning a window-too-narrow result guards '
-              'every call that consumes the window data (or such a call sits in a try whose handler '
-              'returns a failure result); success is returned only after every requirement check took '
-              'its passing arm, and the near-edge check precedes the neighbour indexing; exactly one '
-              'result is appended per estimate, in order, first success wins else first candidate; the '
-              'statistics are chi2/(n-k), 1-cdf, n ln(chi2/n)+2k computed from popt and the window; '
-              'windows are [c-w/2, nextafter(c+w/2)) clipped to the data range with neighbour separation '
-              'on interior edges only; remove_peaks copies before subtracting, skips unsuccessful fits '
-              'and subtracts eval_peak on the window slice.  Optimiser results and third-party '
-              'exceptions are not decided.')
+              'Witness-guided interpretation of peaks/_fit_peaks.py and _remove_peaks.py with recording stubs for the '
+              'optimiser (scipp.curve_fit), the chi-square distribution and the fit models.  Decided: (R1) with fewer '
+              'points than parameters _fit_peak_single_model returns a window-too-narrow result without touching the '
+              'data (guesses that cannot cope with short windows raise in the model), a failing optimiser gives a '
+              'failed result, otherwise the result carries the optimiser parameters, the assessment and the statistics; '
+              '(R2) over all combinations of violated requirements _assess_fit returns success iff none is violated and '
+              'otherwise names a violated one, never raising (a peak at the edge is reported before its neighbours are '
+              'indexed); (R3) fit_peaks returns one result per window in order, each fitted on the data inside its '
+              'window, and _fit_peak returns the first success in (peak, background) product order, else the first '
+              'candidate, for all 16 success patterns; (R4) the statistics are chi2 = sum((y-f)^2/var), chi2/(n-k), '
+              '1-cdf(chi2; n-k), n ln(chi2/n)+2k as exact terms of the window data and the model evaluated at the '
+              'returned parameters; (R5) automatic windows are [c-w/2, nextafter(c+w/2)] clipped to the data range and '
+              'to the neighbour separation, for several witness layouts; (R6) remove_peaks subtracts exactly the peaks '
+              'of successful results inside their windows from a copy and leaves its input untouched.  What the '
+              'optimiser returns is not decided.')
     repo = Repo()
-    run.analysed = {'modules': ['peaks._fit_peaks', 'peaks._remove_peaks'], 'digest': repo.digest.hexdigest()}
-    run.trusted = ['sa/cfg.py (statement CFG, networkx dominators)']
+    run.analysed = {'modules': [MOD, 'peaks._remove_peaks'], 'digest': repo.digest.hexdigest()}
+    run.trusted = ['sa/witness.py', 'scipp.curve_fit and scipy.stats.chi2 (stubs)', 'label-based slicing selects lo <= x < hi on a sorted coordinate']
 
-    # ---- R1 ------------------------------------------------------------------
-    r1 = run.rule('R1', 'the point-count guard (window too narrow) guards every consumer of the window data', 4)
-    fi = repo.func('peaks._fit_peaks', '_fit_peak_single_model')
-    cfg = CFG(fi.node)
-    guard = None
-    for st in cfg.stmt.values():
-        if isinstance(st, ast.If) and st.body and returns_call_of(st.body[-1], 'for_too_narrow_window'):
-            guard = st
-    if guard is None:
-        raise AnalysisError('no `return FitResult.for_too_narrow_window(...)` guard found in _fit_peak_single_model')
-    t = guard.test
-    shape_ok = isinstance(t, ast.Compare) and len(t.ops) == 1 and (
-        (isinstance(t.ops[0], ast.Lt) and norm(t.left) == 'len(data)' and norm(t.comparators[0]) in ('len(p0)', 'len(model.param_names)', 'len(bounds)'))
-        or (isinstance(t.ops[0], ast.Gt) and norm(t.comparators[0]) == 'len(data)' and norm(t.left) in ('len(p0)', 'len(model.param_names)')))
-    for name in CONSUMERS:
-        sites = cfg.calls(lambda c, n=name: ast.unparse(c.func) == n)
-        if not sites:
-            raise AnalysisError(f'anchor call {name}(...) not found in _fit_peak_single_model')
-        bad = []
-        for st, call in sites:
-            if cfg.guarded_by(st, guard, True):
+    # ---- R1: the point-count guard and the failure paths --------------------------------------------------
+    r1 = run.rule('R1', 'too few points -> window-too-narrow result (no exception, data not consumed); optimiser failure -> failed result', 6)
+    sfi = repo.func(MOD, '_fit_peak_single_model')
+    stub_names = ('_assess_fit',)
+    for n_points in (0, 1, 3, 4, 5, 8):
+        for fit_raises in (False, True):
+            w = World(repo)
+            w.guess_needs = 1  # a guess from an empty selection fails inside the model
+            w.model.fit_raises = fit_raises
+            w.model.popt_factory = lambda it, m, p0, w=w: {k: w.scalar(f'opt_{k}', CNT, 3) for k in sorted(p0)}
+            peak = ModelStub(w, 'peak', ['peak_amplitude', 'peak_loc', 'peak_scale'])
+            bkg = ModelStub(w, 'bkg', ['bkg_a0', 'bkg_a1'])
+            data = w.data(n_points)
+            window = w.model.array(w.it, [w.scalar('wlo', ANG, 0), w.scalar('whi', ANG, 100)], 'range')
+            token = object()
+            w.it.stubs[repo.func(MOD, '_assess_fit').fq] = lambda it, a, k, b, w=w: w.assess['success']
+            kind, res = w.call(sfi, [data], {'peak': peak, 'background': bkg, 'window': window,
+                                             'fit_parameters': fit_params(w), 'fit_requirements': None})
+            k_params = 5
+            inst = f'{n_points} points, optimiser {"fails" if fit_raises else "converges"}'
+            if kind != 'return' or not isinstance(res, SObj):
+                r1.fail(inst, loc(sfi), {'outcome': (kind, res if kind == 'raise' else repr(res)[:120]), 'documented': 'a FitResult, never an exception'}, key='guard')
                 continue
-            # alternative idiom: the call sits in a try whose handlers all return a failure result
-            in_safe_try = False
-            for tr in ast.walk(fi.node):
-                if isinstance(tr, ast.Try) and any(call is x for b in tr.body for x in ast.walk(b)):
-                    hs = tr.handlers
-                    in_safe_try = bool(hs) and all(
-                        h.body and isinstance(h.body[-1], ast.Return) and any(k in ast.unparse(h.body[-1]) for k in ('for_too_narrow_window', 'for_failure'))
-                        and (h.type is None or any(n in ast.unparse(h.type) for n in ('Exception', 'ValueError')))
-                        for h in hs)
-            if not in_safe_try:
-                bad.append(ast.unparse(st)[:90])
-        r1.check(not bad and shape_ok, f'{name} after guard', loc(fi, guard),
-                 {'guard': ast.unparse(t), 'guard_shape_ok': shape_ok, 'unguarded_statements': bad}, key=f'guard:{name}')
+            got = assessment_name(res.attrs.get('assessment'))
+            if n_points < k_params:
+                ok = got == 'window_too_narrow' and not w.model.fits and not peak.guesses and not bkg.guesses
+                r1.check(ok, inst, loc(sfi), {'assessment': got, 'optimiser_calls': len(w.model.fits), 'guess_calls': len(peak.guesses) + len(bkg.guesses)}, key='guard')
+            elif fit_raises:
+                r1.check(got == 'failed', inst, loc(sfi), {'assessment': got}, key='failure')
+            else:
+                popt = res.attrs.get('popt')
+                fit = w.model.fits[-1] if w.model.fits else {}
+                ok = got == 'success' and isinstance(popt, dict) and sorted(popt) == sorted(peak.param_names | bkg.param_names) \
+                    and all(isinstance(res.attrs.get(s_), SVar) for s_ in ('red_chisq', 'p_value', 'aic')) \
+                    and res.attrs.get('window') is window and fit.get('data') is data
+                r1.check(ok, inst, loc(sfi), {'assessment': got, 'popt': sorted(popt) if isinstance(popt, dict) else repr(popt)[:80],
+                                              'fitted_on_the_window_data': fit.get('data') is data}, key='result')
 
-    # ---- R2 -----------------------------------------------------------------------
-    r2 = run.rule('R2', 'success is returned only after every requirement check passed; near-edge precedes neighbour indexing', 8)
-    afi = repo.func('peaks._fit_peaks', '_assess_fit')
-    acfg = CFG(afi.node)
-    succ = [st for st in acfg.stmt.values() if isinstance(st, ast.Return) and norm(st.value) == 'FitAssessment.success'] if True else []
-    succ = [st for st in acfg.stmt.values() if isinstance(st, ast.Return) and st.value is not None and norm(st.value) == 'FitAssessment.success']
-    if len(succ) != 1:
-        raise AnalysisError(f'_assess_fit: expected one `return FitAssessment.success`, found {len(succ)}')
-    succ = succ[0]
-    guards = {}
-    for st in acfg.stmt.values():
-        if isinstance(st, ast.If) and st.body and isinstance(st.body[-1], ast.Return) and st.body[-1].value is not None:
-            v = norm(st.body[-1].value)
-            if v.startswith('FitAssessment.'):
-                guards[v.split('.')[1]] = st
-    parents = {}
-    for st in acfg.stmt.values():
-        if isinstance(st, ast.If):
-            for ch in st.body:
-                parents[id(ch)] = st
-    for req, needle in REQUIREMENTS.items():
-        g = guards.get(req)
-        if g is None:
-            r2.fail(req, loc(afi), {'problem': f'no check returning FitAssessment.{req}'}, key=req)
+    # ---- R2: the assessment cascade ------------------------------------------------------------------------------
+    r2 = run.rule('R2', 'success iff no requirement is violated; otherwise a violated requirement is named; never raises', 40)
+    afi = repo.func(MOD, '_assess_fit')
+    bad2 = {}
+    n2 = 0
+    for flags in itertools.product((False, True), repeat=6):
+        viol = dict(zip(REQUIREMENTS, flags, strict=True))
+        if viol['peak_too_wide'] and viol['peak_too_narrow']:
             continue
-        uses = needle in ast.unparse(g.test) and not (isinstance(g.test, ast.BoolOp) and isinstance(g.test.op, ast.And))
-        ok = acfg.guarded_by(succ, g, True)
-        if not ok and id(g) in parents:
-            p = parents[id(g)]
-            ok = 'is not None' in ast.unparse(p.test) and p.body[0] is g and acfg.dominates(p, succ) \
-                and not acfg.reachable_via(g, True, succ)
-        r2.check(ok and uses, req, loc(afi, g), {'test': ast.unparse(g.test), 'guards_success': ok, 'uses': needle}, key=req)
-    r2.check('peak_near_edge' in guards and 'peak_too_narrow' in guards and acfg.dominates(guards['peak_near_edge'], guards['peak_too_narrow']),
-             'near-edge before neighbour indexing', loc(afi), {}, key='edge-before-narrow')
-    # predicate shapes
-    shapes = {
-        '_peak_is_too_wide': {'return(fwhm>fit_requirements.max_peak_width_factor*(coord[-1]-coord[0])).value'},
-        '_peak_is_too_narrow': {'return(fwhm<fit_requirements.min_peak_width_factor*bin_width).value'},
+        for edge_side in (('left', 'right', 'last point') if viol['peak_near_edge'] else ('left',)):
+            for with_bkg_stats in ((True,) if viol['background_is_better'] else (True, False)):
+                w = World(repo)
+                # a non-uniform grid: fine below x = 2, coarse above; spacing around x = 6 is 2, the average spacing 1.25
+                data = w.data(9, variances=False, grid=(0, F(1, 2), 1, F(3, 2), 2, 4, 6, 8, 10))
+                loc_val = {'left': F(1, 4), 'right': F(19, 2), 'last point': F(10)}[edge_side] if viol['peak_near_edge'] else F(6)
+                popt = {'peak_loc': w.scalar('loc', ANG, loc_val), 'peak_amplitude': w.scalar('amp', CNT, -1 if viol['peak_points_down'] else 5),
+                        'bkg_a0': w.scalar('a0', CNT, 1)}
+                peak = ModelStub(w, 'peak', ['peak_amplitude', 'peak_loc'])
+                # window width 10, spacing around the centre 2: max width factor 0.5 (-> 5), min width factor 2 (-> 4)
+                peak.fwhm_value = w.scalar('fwhm', ANG, 6 if viol['peak_too_wide'] else (3 if viol['peak_too_narrow'] else F(9, 2)), positive=True)
+                stats = {'aic': w.scalar('aic', Unit(), 10), 'p_value': w.scalar('p', Unit(), F(1, 1000) if viol['p_too_small'] else F(1, 2)),
+                         'red_chisq': w.scalar('rchi', Unit(), 1)}
+                bstats = {'aic': w.scalar('baic', Unit(), 5 if viol['background_is_better'] else 20), 'p_value': w.scalar('bp', Unit(), F(1, 2)),
+                          'red_chisq': w.scalar('brchi', Unit(), 1)} if with_bkg_stats else None
+                req = SObj(repo.cls('peaks._common', 'FitRequirements'), {'min_p_value': w.scalar('minp', Unit(), F(1, 100)),
+                                                                           'max_peak_width_factor': F(1, 2), 'min_peak_width_factor': 2})
+                req.attrs['max_peak_width_factor'] = 0.5
+                req.attrs['min_peak_width_factor'] = 2.0
+                kind, res = w.call(afi, [data, peak, popt, stats, bstats], {'fit_requirements': req})
+                n2 += 1
+                violated = [k for k, v in viol.items() if v]
+                got = assessment_name(res) if kind == 'return' else None
+                if kind != 'return':
+                    bad2.setdefault('never raises', {'violated': violated, 'outcome': (kind, res)})
+                elif not violated and got != 'success':
+                    bad2.setdefault('all requirements met -> success', {'assessment': got})
+                elif violated and got == 'success':
+                    bad2.setdefault('success only when ' + violated[0] + ' is met', {'violated': violated, 'assessment': got})
+                elif violated and got not in violated:
+                    bad2.setdefault('reported reason is a violated requirement', {'violated': violated, 'assessment': got})
+    names = ['never raises', 'all requirements met -> success', 'reported reason is a violated requirement'] + [f'success only when {r_} is met' for r_ in REQUIREMENTS]
+    for inst in names:
+        hit = next((v for k, v in bad2.items() if k == inst), None)
+        r2.check(hit is None, inst, loc(afi), hit or {'configurations': n2}, key=inst)
+    for _ in range(n2 - len(names)):
+        r2.ok('configuration')
+
+    # ---- R3: one result per window; first success wins ---------------------------------------------------------------
+    r3 = run.rule('R3', 'one result per estimate, in order, fitted on the window data; first success in product order, else first candidate', 18)
+    pfi = repo.func(MOD, '_fit_peak')
+    for pattern in itertools.product((False, True), repeat=4):
+        w = World(repo)
+        peaks = (ModelStub(w, 'p0', ['peak_loc']), ModelStub(w, 'p1', ['peak_loc']))
+        bkgs = (ModelStub(w, 'b0', ['bkg_a0']), ModelStub(w, 'b1', ['bkg_a0']))
+        order = [(p, b) for p in peaks for b in bkgs]
+        made = []
+
+        def single(it, args, kwargs, bound, w=w, order=order, pattern=pattern, made=made):
+            pk, bg = kwargs.get('peak'), kwargs.get('background')
+            idx = next(i for i, (p, b) in enumerate(order) if p is pk and b is bg)
+            res = SObj(repo.cls(MOD, 'FitResult'), {'assessment': w.assess['success'] if pattern[idx] else w.assess['failed'], 'tag': idx})
+            made.append(idx)
+            return res
+        w.it.stubs[repo.func(MOD, '_fit_peak_single_model').fq] = single
+        data = w.data(6)
+        window = w.model.array(w.it, [w.scalar('wlo', ANG, 0), w.scalar('whi', ANG, 100)], 'range')
+        kind, res = w.call(pfi, [data, window, bkgs, peaks, fit_params(w), None])
+        want = pattern.index(True) if any(pattern) else 0
+        got = res.attrs.get('tag') if kind == 'return' and isinstance(res, SObj) else None
+        r3.check(got == want, f'success pattern {pattern}', loc(pfi), {'returned_candidate': got, 'documented': want, 'tried': made, 'outcome': kind}, key='selection')
+    ffi = repo.func(MOD, 'fit_peaks')
+    for order_label, los, his in (('increasing windows', (1, 4), (3, 7)), ('overlapping and empty windows', (2, 5, 9), (6, 5, 20))):
+        w = World(repo)
+        data = w.data(8)
+        rows = [w.model.array(w.it, [w.scalar(f'lo{i}', ANG, lo), w.scalar(f'hi{i}', ANG, hi)], 'range') for i, (lo, hi) in enumerate(zip(los, his, strict=True))]
+        windows = w.model.matrix(w.it, rows, 'x')
+        est = w.model.array(w.it, [w.scalar(f'c{i}', ANG, (lo + hi) / 2) for i, (lo, hi) in enumerate(zip(los, his, strict=True))], 'x')
+        seen = []
+
+        def one(it, args, kwargs, bound, seen=seen):
+            seen.append((args[0], args[1]))
+            return ('result', len(seen) - 1)
+        w.it.stubs[repo.func(MOD, '_fit_peak').fq] = one
+        w.it.stubs[repo.func(MOD, '_assert_data_is_supported').fq] = lambda *a: None
+        w.it.stubs[repo.func(MOD, '_parse_model_spec').fq] = lambda it, args, kwargs, bound: ('models', kwargs.get('prefix'))
+        kind, res = w.call(ffi, [data], {'peak_estimates': est, 'windows': windows, 'background': 'linear', 'peak': 'gaussian'})
+        ok = kind == 'return' and res == [('result', i) for i in range(len(los))] and len(seen) == len(los)
+        detail = {'outcome': kind, 'results': repr(res)[:120]}
+        if ok:
+            for i, (d_in, win) in enumerate(seen):
+                its = items_of(d_in) or []
+                want_idx = [j for j in range(8) if los[i] <= j < his[i]]
+                got_idx = [next((j for j, y in enumerate(items_of(data)) if y is x), None) for x in its]
+                if got_idx != want_idx or items_of(win) is None or items_of(win)[0] is not items_of(rows[i])[0]:
+                    ok = False
+                    detail = {'window': i, 'points_fitted': got_idx, 'points_inside_the_window': want_idx}
+        r3.check(ok, f'fit_peaks [{order_label}]', loc(ffi), detail, key='loop')
+
+    # ---- R4: statistics ---------------------------------------------------------------------------------------------------
+    r4 = run.rule('R4', 'chi2 = sum((y-f)^2/var); red = chi2/(n-k); p = 1-cdf(chi2; n-k); aic = n ln(chi2/n) + 2k, from the returned parameters and the window data', 2)
+    perf = repo.func(MOD, '_perform_fit')
+    w = World(repo)
+    w.model.popt_factory = lambda it, m, p0, w=w: {k: with_variance(w, w.scalar(f'opt_{k}', CNT, 3)) for k in sorted(p0)}
+    model = ModelStub(w, 'm', ['a', 'b'])
+    data = w.data(4)
+    p0 = {'a': w.scalar('a0', CNT, 1), 'b': w.scalar('b0', CNT, 1)}
+    kind, res = w.call(perf, [model, data], {'p0': p0, 'bounds': model.param_bounds})
+    probs = []
+    if kind != 'return' or not isinstance(res, tuple) or len(res) != 2 or not isinstance(res[1], dict):
+        probs.append(f'_perform_fit: {kind} {res!r}'[:200])
+    else:
+        popt, stats = res
+        fit = w.model.fits[-1]
+        if fit.get('data') is not data or fit.get('p0') is not p0:
+            probs.append('the optimiser is not handed the window data and the initial parameters')
+        if not model.calls:
+            probs.append('the model is never evaluated at the returned parameters')
+        else:
+            x_arg, params = model.calls[-1]
+            if items_of(x_arg) is None or any(a is not b for a, b in zip(items_of(x_arg), items_of(data.members['coords']['x']), strict=False)):
+                probs.append('the best fit is not evaluated on the window coordinate')
+            for k, v in params.items():
+                if not (isinstance(v, SVar) and isinstance(v.term, Rat) and v.term.eq(Rat.sym(f'opt_{k}'))):
+                    probs.append(f'parameter {k} handed to the model is not the optimised value')
+            f_items = [Rat.sym(f'f_m_{len(model.calls)}_x{i}') for i in range(4)]
+            chi2 = Rat.const(0)
+            for i in range(4):
+                chi2 = chi2 + (Rat.sym(f'y{i}') - f_items[i]) ** 2 / Rat.sym(f'v{i}', positive=True)
+            n, k_ = 4, 2
+            want = {'red_chisq': chi2 / (n - k_), 'aic': n * T.FN_CTORS['log'](chi2 / n) + 2 * k_,
+                    'p_value': 1 - Rat.fn('chi2cdf', Rat.const(n - k_), chi2)}
+            for name, wt in want.items():
+                g = stats.get(name)
+                if not (isinstance(g, SVar) and isinstance(g.term, Rat) and g.term.eq(wt)):
+                    probs.append(f'{name} = {T.show(g.term)[:200] if isinstance(g, SVar) and g.term is not None else g!r}, expected {T.show(wt)[:200]}')
+    r4.check(not probs, '_perform_fit statistics', loc(perf), {'problems': probs[:3]}, key='_goodness_of_fit_statistics')
+    r4.check(not [p_ for p_ in probs if 'optimis' in p_ or 'evaluated' in p_ or 'parameter' in p_], '_perform_fit feeds popt and window data', loc(perf), {'problems': probs[:3]}, key='perform-fit')
+
+    # ---- R5: automatic windows ---------------------------------------------------------------------------------------------
+    r5 = run.rule('R5', 'windows: [c-w/2, nextafter(c+w/2)] clipped to the data range and to the neighbour separation on interior edges', 4)
+    wfi = repo.func(MOD, '_fit_windows')
+    layouts = {
+        'isolated peaks, window inside the data': ((10, 30, 50), 4),
+        'windows wider than the peak distance': ((10, 14, 50), 12),
+        'estimates at and beyond the data range': ((0, 30, 62), 10),
+        'a single estimate': ((30,), 100),
     }
-    for fname, accepted in shapes.items():
-        f = repo.func('peaks._fit_peaks', fname)
-        texts = stmt_texts(f.node)
-        ok = any(a in texts for a in accepted)
-        extra = {}
-        if fname == '_peak_is_too_narrow':
-            ok = ok and 'bin_width=(coord[center_idx+1]-coord[center_idx-1])/2' in texts \
-                and "center_idx=np.argmin(abs(coord.values-popt['peak_loc'].values))" in texts
-            extra = {'bin_width': [t_ for t_ in texts if t_.startswith('bin_width=')], 'center': [t_ for t_ in texts if t_.startswith('center_idx=')]}
-        r2.check(ok, fname, loc(f), {'returns': [t_ for t_ in texts if t_.startswith('return')], **extra}, key=fname)
+    for name, (centres, width) in layouts.items():
+        w = World(repo)
+        data = w.data(61)  # x = 0 .. 60
+        cs = [w.scalar(f'c{i}', ANG, c) for i, c in enumerate(centres)]
+        centre = w.model.array(w.it, cs, 'x')
+        wd = w.scalar('width', ANG, width, positive=True)
+        fp = fit_params(w)
+        kind, res = w.call(wfi, [data, centre, wd, fp])
+        probs = []
+        if kind != 'return' or not isinstance(res, SVar) or rows_of(res) is None or len(rows_of(res)) != len(centres):
+            probs.append(f'{kind} {res!r}'[:160])
+        else:
+            val = w.model.val
+            sep = Rat.const(F(1, 3))
+            lo_d, hi_d = Rat.sym('x0'), Rat.sym('x60')
+            for i, row in enumerate(rows_of(res)):
+                lo_c, hi_c = items_of(row)
+                c = cs[i].term
+                half = wd.term / 2
+                u = ANG.scale()
+                cand_lo = [c - half, lo_d] + ([cs[i - 1].term + (c - cs[i - 1].term) * sep] if i > 0 else [])
+                cand_hi = [Rat.fn('nextafter_up', (c + half) / u) * u, hi_d] + ([cs[i + 1].term - (cs[i + 1].term - c) * sep] if i < len(centres) - 1 else [])
+                ev = lambda t: T.evaluate(t, val, w.model.fns)  # noqa: E731
+                want_lo = max(cand_lo, key=ev)
+                # an upper edge below the data range is clipped up to the lower data bound first
+                want_hi = min(cand_hi, key=ev)
+                if ev(want_hi) < ev(lo_d):
+                    want_hi = lo_d
+                if ev(want_lo) > ev(hi_d):
+                    want_lo = hi_d
+                for label, got, want in (('lower', lo_c, want_lo), ('upper', hi_c, want_hi)):
+                    if not (isinstance(got.term, Rat) and (got.term.eq(want) or ev(got.term) == ev(want))):
+                        probs.append(f'{label} edge of window {i}: {T.show(got.term) if got.term is not None else None}, expected {T.show(want)}')
+        r5.check(not probs, name, loc(wfi), {'problems': probs[:3]}, key='_fit_windows')
 
-    # ---- R3 -------------------------------------------------------------------------
-    r3 = run.rule('R3', 'one result per estimate, in order; first success wins, else the first candidate', 3)
-    ffi = repo.func('peaks._fit_peaks', 'fit_peaks')
-    loops = [n for n in ffi.node.body if isinstance(n, ast.For)]
-    ok = False
-    detail = {}
-    if len(loops) == 1:
-        lp = loops[0]
-        appends = [s for s in lp.body if isinstance(s, ast.Expr) and norm(s.value).startswith('results.append(')]
-        jumps = [n for n in ast.walk(lp) if isinstance(n, ast.Break | ast.Continue | ast.Try | ast.Return)]
-        it = norm(lp.iter)
-        rets = [s for s in ffi.node.body if isinstance(s, ast.Return)]
-        ok = len(appends) == 1 and not jumps and it == 'range(windows.sizes[peak_estimates.dim])' \
-            and len(rets) == 1 and norm(rets[0].value) == 'results' \
-            and any(norm(s) == 'window=windows[peak_estimates.dim,i]' for s in lp.body) \
-            and any(norm(s) == 'data_in_window=data[data.dim,window[0]:window[1]]' for s in lp.body)
-        detail = {'iter': it, 'appends': len(appends), 'jumps': [type(j).__name__ for j in jumps]}
-    r3.check(ok, 'fit_peaks loop', loc(ffi), detail, key='loop')
-    pfi = repo.func('peaks._fit_peaks', '_fit_peak')
-    pl = [n for n in pfi.node.body if isinstance(n, ast.For)]
-    ok = False
-    detail = {}
-    if len(pl) == 1:
-        lp = pl[0]
-        body = lp.body
-        succ_ret = [s for s in body if isinstance(s, ast.If) and norm(s.test) in ('result.assessment==FitAssessment.success', 'result.success')
-                    and len(s.body) == 1 and isinstance(s.body[0], ast.Return) and norm(s.body[0].value) == 'result' and not s.orelse]
-        cand = [s for s in body if isinstance(s, ast.If) and norm(s.test) == 'candidate_resultisNone'
-                and len(s.body) == 1 and norm(s.body[0]) == 'candidate_result=result' and not s.orelse]
-        other_assign = [s for s in ast.walk(lp) if isinstance(s, ast.Assign) and norm(s.targets[0]) == 'candidate_result']
-        tail = pfi.node.body[-1]
-        ok = len(succ_ret) == 1 and len(cand) == 1 and len(other_assign) == 1 \
-            and norm(lp.iter) == 'itertools.product(peaks,backgrounds)' \
-            and isinstance(tail, ast.Return) and norm(tail.value) == 'candidate_result' \
-            and body.index(succ_ret[0]) < body.index(cand[0])
-        detail = {'iter': norm(lp.iter), 'success_return': len(succ_ret), 'candidate_assign': len(cand)}
-    r3.check(ok, '_fit_peak selection', loc(pfi), detail, key='selection')
-    sfi = repo.func('peaks._fit_peaks', '_fit_peak_single_model')
-    texts = stmt_texts(sfi.node)
-    r3.check('model=background+peak' in texts, 'model = background + peak', loc(sfi), {}, key='model-sum')
-
-    # ---- R4 --------------------------------------------------------------------------
-    r4 = run.rule('R4', 'statistics: chi2 = sum((y-f)^2/var); red = chi2/(n-k); p = 1-cdf(chi2); aic = n ln(chi2/n) + 2k', 3)
-    want = {
-        '_chi_square': ['aux=(sc.values(data)-best_fit)**2', 'aux/=sc.variances(data)', "returnsc.sum(aux.data).to(unit='one')"],
-        '_goodness_of_fit_statistics': ['n_dof=len(data)-len(params)', 'chi_square=_chi_square(data,best_fit)', 'reduced_chi_square=chi_square/n_dof',
-                                        'p=sc.scalar(1-_scipy_chi2(n_dof).cdf(chi_square.value))', 'aic=_akaike_information_criterion(data,chi_square,params)',
-                                        "return{'red_chisq':reduced_chi_square,'p_value':p,'aic':aic}"],
-        '_akaike_information_criterion': ['neg2_log_likelihood=len(data)*sc.log(chi_square/len(data))', 'returnneg2_log_likelihood+2*len(params)'],
-    }
-    for fname, stmts in want.items():
-        f = repo.func('peaks._fit_peaks', fname)
-        texts = stmt_texts(f.node)
-        missing = [s for s in stmts if s not in texts]
-        r4.check(not missing, fname, loc(f), {'missing_statements': missing, 'present': texts[:8]}, key=fname)
-    # popt values and window data feed the statistics
-    pf = repo.func('peaks._fit_peaks', '_perform_fit')
-    texts = stmt_texts(pf.node)
-    r4.check('goodness_stats=_goodness_of_fit_statistics(data,best_fit,popt)' in texts
-             and any(t_.startswith('best_fit=sc.DataArray(model(data.coords[data.dim],**{k:sc.values(p)fork,pinpopt.items()})') for t_ in texts),
-             '_perform_fit feeds popt and window data', loc(pf), {'statements': texts[:6]}, key='perform-fit')
-
-    # ---- R5 windows --------------------------------------------------------------------
-    r5 = run.rule('R5', 'windows: [c-w/2, nextafter(c+w/2)) clipped to the data range; neighbour separation on interior edges only', 3)
-    want = {
-        '_fit_windows': ["windows['range',0]=center-width/2", "windows['range',1]=np.nextafter(center.values+width.value/2,np.inf)",
-                         'windows=_clip_to_data_range(data,windows)', '_separate_from_neighbors_in_place(center,windows,fit_parameters)', 'returnwindows'],
-        '_clip_to_data_range': ['lo=data.coords[data.dim].min()', 'hi=data.coords[data.dim].max()', 'windows=sc.where(windows<lo,lo,windows)',
-                                'windows=sc.where(windows>hi,hi,windows)', 'returnwindows'],
-        '_separate_from_neighbors_in_place': ['left_neighbor=center[:-1]', 'right_neighbor=center[1:]',
-                                              'min_separation=(right_neighbor-left_neighbor)*fit_parameters.neighbor_separation_factor',
-                                              'lo=left_neighbor+min_separation', 'hi=right_neighbor-min_separation',
-                                              "left_edge=windows['range',0][1:]", "right_edge=windows['range',1][:-1]",
-                                              'left_edge[:]=sc.where(left_edge<lo,lo,left_edge)', 'right_edge[:]=sc.where(right_edge>hi,hi,right_edge)'],
-    }
-    for fname, stmts in want.items():
-        f = repo.func('peaks._fit_peaks', fname)
-        texts = stmt_texts(f.node)
-        missing = [s for s in stmts if s not in texts]
-        r5.check(not missing, fname, loc(f), {'missing_statements': missing}, key=fname)
-
-    # ---- R6 remove_peaks ---------------------------------------------------------------------
-    r6 = run.rule('R6', 'remove_peaks: copy before subtracting; unsuccessful fits skipped; subtrahend is eval_peak on the window slice; input not written', 4)
+    # ---- R6: remove_peaks ------------------------------------------------------------------------------------------------------
+    r6 = run.rule('R6', 'remove_peaks: exactly the peaks of successful results are subtracted inside their windows, from a copy; input untouched', 4)
     rfi = repo.func('peaks._remove_peaks', 'remove_peaks')
-    rcfg = CFG(rfi.node)
-    sub = [st for st in rcfg.stmt.values() if isinstance(st, ast.AugAssign) and isinstance(st.op, ast.Sub)]
-    if len(sub) != 1:
-        raise AnalysisError('remove_peaks: expected one in-place subtraction')
-    sub = sub[0]
-    copies = [st for st in rcfg.stmt.values() if isinstance(st, ast.Assign) and 'copy(' in ast.unparse(st.value) and 'deep=False' not in ast.unparse(st.value)]
-    r6.check(bool(copies) and any(rcfg.dominates(c, sub) for c in copies), 'deep copy dominates subtraction', loc(rfi, sub),
-             {'copies': [ast.unparse(c) for c in copies]}, key='copy')
-    skip = [st for st in rcfg.stmt.values() if isinstance(st, ast.If) and norm(st.test) in ('notresult.success', 'result.assessment!=FitAssessment.success')
-            and len(st.body) == 1 and isinstance(st.body[0], ast.Continue)]
-    loops_r = [st for st in rcfg.stmt.values() if isinstance(st, ast.For)]
-    r6.check(len(skip) == 1 and rcfg.dominates(skip[0], sub) and not rcfg.reachable_via(skip[0], True, sub, without=loops_r) if skip else False,
-             'unsuccessful fits are skipped', loc(rfi), {'guards': [ast.unparse(s.test) for s in skip]}, key='skip')
-    texts = stmt_texts(rfi.node)
-    r6.check('in_window-=result.eval_peak(in_window.coords[data.dim])' in texts
-             and 'in_window=data[data.dim,result.window[0]:result.window[1]]' in texts, 'subtrahend and slice', loc(rfi, sub),
-             {'statements': [t_ for t_ in texts if 'in_window' in t_]}, key='subtrahend')
+    w = World(repo)
+    data = w.data(8, variances=False)
+    before = [(y, y.term) for y in items_of(data)]
+    results = []
+    for r_idx, (lo, hi, success) in enumerate(((1, 4, True), (3, 6, False), (5, 8, True), (20, 30, True))):
+        results.append(ResultStub(w, r_idx, lo, hi, success))
+    kind, res = w.call(rfi, [data, results])
+    probs = []
+    if kind != 'return' or not isinstance(res, SVar) or items_of(res) is None or len(items_of(res)) != 8:
+        probs.append(f'{kind} {res!r}'[:160])
+    else:
+        for j, out in enumerate(items_of(res)):
+            want = Rat.sym(f'y{j}')
+            for r_ in results:
+                if r_.success and r_.lo <= j < r_.hi:
+                    want = want - Rat.sym(f'peak{r_.idx}_x{j}')
+            if not (isinstance(out.term, Rat) and out.term.eq(want)):
+                probs.append(f'point {j}: {T.show(out.term) if out.term is not None else None}, expected {T.show(want)}')
+        if any(y.term is not t0 and not (isinstance(y.term, Rat) and y.term.eq(t0)) for y, t0 in before) or items_of(data) is None \
+                or [y for y, _ in before] != list(items_of(data)):
+            probs.append('the input data array was modified')
+        if any(a is b for a, b in zip(items_of(res), items_of(data), strict=True)):
+            probs.append('the result shares its data buffer with the input')
+        for r_ in results:
+            if not r_.success and r_.evaluated:
+                probs.append(f'the peak of unsuccessful result {r_.idx} was evaluated')
+    r6.check(not probs, 'subtraction inside successful windows only', loc(rfi), {'problems': probs[:4]}, key='subtrahend')
+    r6.check(not [p_ for p_ in probs if 'input' in p_ or 'shares' in p_], 'deep copy before subtracting', loc(rfi), {'problems': probs[:4]}, key='copy')
+    r6.check(not [p_ for p_ in probs if 'unsuccessful' in p_], 'unsuccessful fits are skipped', loc(rfi), {'problems': probs[:4]}, key='skip')
+    w = World(repo)
+    data = w.data(4, variances=True)
+    kind, res = w.call(rfi, [data, []])
+    r6.check(kind == 'raise', 'data with variances is refused', loc(rfi), {'outcome': kind}, key='variances')
     eff = Effects(repo)
     eff.solve()
     s_ = eff.summaries[rfi.fq]
     r6.check(not s_.mutates, 'input not written', loc(rfi), {'writes_to': sorted(s_.mutates)}, key='no-mutation')
     return run
+
+
+def fit_params(w):
+    return SObj(w.repo.cls('peaks._common', 'FitParameters'), {'guess_background_fraction': 0.5, 'neighbor_separation_factor': F(1, 3)})
+
+
+def with_variance(w, v):
+    v.members['var'] = w.scalar('var_' + T.show(v.term), Unit({'counts': 2}), 1, positive=True)
+    return v
+
+
+class ResultStub:
+    def __init__(self, w, idx, lo, hi, success):
+        self.w, self.idx, self.lo, self.hi, self.success = w, idx, lo, hi, success
+        self.window = w.model.array(w.it, [w.scalar(f'r{idx}lo', ANG, lo), w.scalar(f'r{idx}hi', ANG, hi)], 'range')
+        self.assessment = w.assess['success'] if success else w.assess['failed']
+        self.popt = {}
+        self.evaluated = False
+
+    def eval_model(self, x):
+        w = self.w
+        return w.model.array(w.it, [sym_scalar(w.it, w.model, f'model{self.idx}_x{T.show(c.term)[1:]}', CNT, 1) for c in items_of(x)], x.members['dims'][0])
+
+    def eval_peak(self, x):
+        self.evaluated = True
+        w = self.w
+        out = []
+        for c in items_of(x):
+            j = T.show(c.term)[1:]
+            out.append(sym_scalar(w.it, w.model, f'peak{self.idx}_x{j}', CNT, 1))
+        return w.model.array(w.it, out, x.members['dims'][0])
